@@ -51,7 +51,12 @@ def alloc_port():
                 owner = int(open(path).read().strip() or "0")
             except Exception:
                 owner = 0
-            if owner and _pid_alive(owner):
+            try:
+                age = time.time() - os.path.getmtime(path)
+            except OSError:
+                age = 0
+            # pids wrap quickly here, so a live pid alone does not prove the reservation is current
+            if owner and _pid_alive(owner) and age < 3 * 3600:
                 continue
             try:
                 os.unlink(path)
